@@ -255,6 +255,110 @@ def background_tasks(args, scratch):
     return res
 
 
+def impatient_clients(args, scratch):
+    """layer 4: clients that send a syntactically valid request and disconnect 0-2 ms later (hyper drops the handler future at whatever
+    await it has reached: queued actor messages lose their requester), mixed with patient probes; the status task runs on a short interval
+    so that the status actor is busy. Oracles: no panic anywhere in the process, probes are served during and after the storm, and the
+    status file keeps being rewritten."""
+    import os, threading
+    res = {"evaluations": 0, "nontrivial": [], "samples": [], "counts": {}, "violations": []}
+    cnt = res["counts"]
+    lock = threading.Lock()
+    w = wproxy.World(scratch, runtime="multi:%d" % args["rt_threads"])
+    status_dir = scratch + "/status"
+    try:
+        w.key("ffffffff-0000-4000-8000-000000000002", "%064x" % common.rng("c13-imp-key").getrandbits(256))
+        w.shim.call("status_task_start", dir=status_dir, interval_ms=5)
+        root = w.identity("root", "helper", [])
+        w.rules("imds", {"defaultAccess": "deny", "mode": "audit", "id": "imp"})
+        stop = threading.Event()
+        probe_fail = []
+
+        def storm(ti):
+            rr = common.rng("c13-imp", args["shard"], ti)
+            for k in range(args["per_thread"]):
+                if stop.is_set():
+                    break
+                try:
+                    c = w.open(rr.choice(["imds", "other"]), root, timeout=3)
+                    c.send(rawhttp.build_request(rr.choice(["GET", "POST"]), "/imp/%d/%d?x=%d" % (ti, k, k), [("x-vf-id", "imp-%d-%d" % (ti, k)), ("content-length", "0")]))
+                    mode = k % 4
+                    if mode == 1:
+                        time.sleep(rr.random() * 0.0003)
+                    elif mode == 2:
+                        time.sleep(rr.random() * 0.002)
+                    c.close(abort=(k % 3 != 0))
+                    with lock:
+                        cnt["impatient_requests"] = cnt.get("impatient_requests", 0) + 1
+                except OSError:
+                    with lock:
+                        cnt["impatient_client_errors"] = cnt.get("impatient_client_errors", 0) + 1
+
+        def prober():
+            n = 0
+            while not stop.is_set():
+                n += 1
+                try:
+                    # source ports outside the ephemeral range: a record injected for a probe cannot be consumed by the late accept of
+                    # an aborted storm connection that used the same (recycled) ephemeral port
+                    c = w.open("other", root, timeout=10, src_port=20000 + n)
+                    c.send(rawhttp.build_request("GET", "/probe/%d" % n, [("x-vf-id", "imp-probe-%d" % n)]))
+                    st = c.read_response().status
+                    c.close()
+                    if st != 200:
+                        probe_fail.append({"probe": n, "status": st})
+                except Exception as e:  # noqa
+                    probe_fail.append({"probe": n, "error": repr(e)})
+                with lock:
+                    cnt["patient_probes"] = cnt.get("patient_probes", 0) + 1
+                time.sleep(0.01)
+        ts = [threading.Thread(target=storm, args=(i,)) for i in range(args["threads"])]
+        pt = threading.Thread(target=prober)
+        pt.start()
+        for t in ts: t.start()
+        for t in ts: t.join()
+        stop.set(); pt.join()
+        res["evaluations"] += cnt.get("impatient_requests", 0) + cnt.get("patient_probes", 0)
+        for p in w.shim.panics():
+            res["violations"].append(["panic-at:impatient-clients:%s" % (p.get("location") or "?").split("/src/")[-1], {"panic": p}])
+        # liveness afterwards: the listener serves, and the status task publishes (the file is rewritten)
+        ok = False
+        for k in range(3):
+            try:
+                c = w.open("other", root, timeout=10, src_port=19990 + k)
+                c.send(rawhttp.build_request("GET", "/probe/final", [("x-vf-id", "imp-probe-final")]))
+                ok = c.read_response().status == 200
+                c.close()
+            except Exception:  # noqa
+                ok = False
+            if ok:
+                break
+        if not ok:
+            res["violations"].append(["listener-dead-after:impatient-clients", {"probe_failures": probe_fail[:5]}])
+        elif probe_fail:
+            res["violations"].append(["no-http-response:patient-request-during-impatient-clients", {"failures": probe_fail[:5], "count": len(probe_fail)}])
+        sp = os.path.join(status_dir, "status.json")
+
+        def stamp():
+            try:
+                st = os.stat(sp)
+                return (st.st_mtime_ns, st.st_ino)
+            except OSError:
+                return None
+        s0 = stamp()
+        t0 = time.time()
+        while stamp() == s0 and time.time() - t0 < 10:
+            time.sleep(0.02)
+        if stamp() == s0:
+            res["violations"].append(["status-task-stopped-publishing-after:impatient-clients", {"stamp": s0}])
+        cnt["status_file_rewritten_after_storm"] = 1 if stamp() != s0 else 0
+        res["nontrivial"] += ["impatient-%d-%d" % (args["shard"], i) for i in range(min(50, cnt.get("impatient_requests", 0) // 100))]
+        res["samples"].append({"layer": "impatient-clients", "threads": args["threads"], "requests": cnt.get("impatient_requests", 0), "probes": cnt.get("patient_probes", 0)})
+    finally:
+        w.close()
+    return res
+
+
 def worker(args, scratch):
     r = common.rng("c13", args["shard"], args["tier"])
     res = {"evaluations": 0, "nontrivial": [], "samples": [], "counts": {}, "violations": []}
@@ -276,7 +380,9 @@ def run(tier, rep):
     rep.coverage["rule"] = ("layer 1: anchored sites through RPC (write_event, set/get module status, canonicaliser with arbitrary header bytes, read_response_body with content types x charsets x frame splits), strings = "
                             "prefix of length cut-delta followed by 2/3/4-byte characters for cut in {1024, 4096}; layer 2: the real listener with a key latched: header values with bytes >= 0x80, repeated headers, "
                             "URLs up to 60000 bytes, real caller processes whose command line / user / exe name put a multi-byte character across byte 4096 of the texts the agent builds (denied and allowed); observer = "
-                            "process-wide panic hook (location), each request must get an HTTP response and a probe request must be served afterwards. non-trivial = input crossing a cut with a multi-byte character or "
+                            "process-wide panic hook (location), each request must get an HTTP response and a probe request must be served afterwards; layer 3: the key keeper against hostile host documents with notifications aimed at the "
+                            "end of its poll interval; layer 4: thousands of clients that send a valid request and disconnect 0-2 ms later (handler futures dropped at arbitrary awaits) while patient probes and the 5 ms status task "
+                            "run: no panic, probes served, status file still rewritten. non-trivial = input crossing a cut with a multi-byte character or "
                             "containing non-ASCII header bytes; distinct by (site, alignment, width)")
     if tier == "thorough":
         from .. import miri
@@ -285,5 +391,8 @@ def run(tier, rep):
         miri.run({"truncation": corpus}, [], rep)
     args = [{"shard": 0, "tier": tier, "layer": "sites"}, {"shard": 1, "tier": tier, "layer": "e2e"}]
     for res in sandbox.run_many("vf.props.c13", "worker", args, workers=2, timeout=1500):
+        rep.merge_worker(res)
+    iargs = [{"shard": i, "tier": tier, "threads": 12, "per_thread": 400 if tier == "quick" else 6000, "rt_threads": [2, 4][i % 2]} for i in range(2 if tier == "quick" else 4)]
+    for res in sandbox.run_many("vf.props.c13", "impatient_clients", iargs, workers=len(iargs), timeout=1500):
         rep.merge_worker(res)
     rep.merge_worker(sandbox.run("vf.props.c13", "background_tasks", {"tier": tier, "interval_ms": 25, "rounds": 250 if tier == "quick" else 4000}, timeout=1500))
